@@ -749,7 +749,12 @@ func c05a(c *Ctx) {
 							switch x := in.(type) {
 							case ssa.CallInstruction:
 								n := calleeName(x)
-								if n != "builtin:append" && n != "sort.Ints" && n != c.W.ModPath+"/emitter.optimizeChunkOrder" && n != "builtin:len" {
+								// (or a helper of the package that writes nothing and hands back a list of ids)
+								pureIDs := false
+								if g := callee(x); g != nil && c.W.InRepo(g) && c.W.PkgShort(g) == "emitter" && c.T(f).purity(g) >= purReadOnly && g.Signature.Results().Len() == 1 && types.TypeString(g.Signature.Results().At(0).Type(), nil) == "[]int" {
+									pureIDs = true
+								}
+								if n != "builtin:append" && n != "sort.Ints" && n != c.W.ModPath+"/emitter.optimizeChunkOrder" && n != "builtin:len" && !pureIDs {
 									clean = false
 									why = "calls " + n
 								}
